@@ -256,7 +256,7 @@ pub fn gen(seed: u64, tier: &str) -> Vec<String> {
         }
     }
     // random binaries
-    let count = if thorough { 6000 } else { 250 };
+    let count = if thorough { 6000 } else { 1000 };
     for _ in 0..count {
         let flags = match rng.below(4) {
             0 => 0,
